@@ -239,6 +239,17 @@ def relational_vector(vec):
                     problems.append(tag + f"{{C10}} inflow-driven model driven with the stock-driven ({name}) inflow does not reproduce the stock")
             if not allclose(m.inflow.values, l.inflow.values, tol_scale):
                 problems.append(tag + "{C10} manual and lapack solvers disagree")
+            # a phase-out on the SAME inflow-driven object: the inflow of the later cohorts is set to zero and the model recomputed;
+            # the stock-driven model fed with that stock returns the phased-out inflow
+            ph = run_id(S, model, variant, d1)
+            z = d1.copy()
+            z[S.n // 2:] = 0.0
+            ph.inflow.values[...] = z
+            ph.compute()
+            back_z = run_sd(S, model, variant, ph.stock.values.copy(), "manual")
+            if not allclose(back_z.inflow.values, z, tol_scale):
+                problems.append(tag + "{C10,C17} after the inflow of the later cohorts was set to zero and the SAME inflow-driven object recomputed, "
+                                      "the stock-driven model does not return that inflow from its stock")
             # C16 for the stock-driven model: one label computed ALONE (a time-only stock) gives that label's series of the joint run
             if len(S.lab_idx) > 1:
                 sel = (slice(None),) + S.lab_idx[li]
